@@ -1424,13 +1424,9 @@ theorem SweepOK.trans {s s' s'' : State} (a : SweepOK s s') (b : SweepOK s' s'')
   exact ⟨b1.trans a1, b2.trans a2, b3.trans a3, hk'', hw''⟩
 
 theorem sweepEvict_ok (s : State) (id : Nat) : SweepOK s (sweepEvict s id).1 := by
-  unfold sweepEvict
-  cases hc : s.adm.kw.get? id with
-  | none =>
-    rw [Adm.delete_uncharged s.adm id hc]
-    exact SweepOK.refl s
-  | some wk =>
-    rw [Adm.delete_charged s.adm id wk hc]
+  rcases sweepEvict_cases s id with h0 | ⟨wk, hc, _, h1⟩
+  · rw [h0]; exact SweepOK.refl s
+  · rw [h1]
     simp only []
     refine ⟨applyEvictId_env _ _, fun hk hw => ?_⟩
     have F := applyEvictId_evFold { s with adm := { s.adm with kw := s.adm.kw.del id, used := s.adm.used - wk.weight } }
